@@ -175,6 +175,10 @@ def check_c04(tier, seed, wd):
         lvl = rng.choice(levels)
         if n > MB and lvl in ('-9', '--best', '-12', '-5'): lvl = rng.choice(['-1', '--fast=3', '-3'])
         kind = rng.choice(['random', 'lz', 'text', 'sparse', 'zeros', 'lz'])
+        # pinned cases, always run: incompressible data filling whole blocks (blocks that EXPAND: a legacy block above 8 MiB, raw LZ4 frame blocks)
+        if ci == 0: legacy, n, kind, lvl = True, 8 * MB + 1, 'random', '-1'
+        if ci == 1: legacy, n, kind, lvl = False, 4 * MB + 1, 'random', '-1'
+        if ci == 2: legacy, n, kind, lvl = True, 8 * MB - 40000, 'random', '-9'
         content = gen_content(rng, n, kind)
         opts = [lvl]; want_bsid = 0; want_indep = 2; want_cs = 2; want_cc = 2; use_dict = False
         if legacy: opts = ['-l'] + ([lvl] if lvl in ('-1', '-9', '-3') else [])
